@@ -379,16 +379,21 @@ pub fn patterns(v: &Value, s: &S, env: &Env, out: &mut Vec<&'static str>) {
         (Value::Record(_) | Value::Null, S::Union(_)) => {
             // the encoder handles bare null and bare records in a union
             if let (Value::Record(fields), S::Union(br)) = (v, s) {
-                // judge against the first record branch that has all the candidate's field names
-                for b in br {
+                // The value belongs to the first record branch it conforms to (else the first that has all
+                // its field names). The encoder instead tries the branches in order and keeps the first
+                // that encodes without error - and scalars encode whatever the schema says - so an EARLIER
+                // record branch all of whose fields the value can supply shadows the right one.
+                let recs: Vec<&S> = br.iter().filter(|b| matches!(b.deref(env), S::Record { .. })).collect();
+                let names_in = |b: &S| matches!(b.deref(env), S::Record { fields: sf, .. } if fields.iter().all(|(n, _)| sf.iter().any(|f| &f.name == n)));
+                let target = recs.iter().position(|b| fits(v, b, env)).or_else(|| recs.iter().position(|b| names_in(b)));
+                for (i, b) in recs.iter().enumerate() {
+                    if Some(i) == target {
+                        patterns(v, b, env, out);
+                        break;
+                    }
                     if let S::Record { fields: sf, .. } = b.deref(env) {
-                        if !sf.is_empty() && sf.len() < fields.len() && sf.iter().all(|f| fields.iter().any(|(n, _)| n == &f.name)) {
-                            // an earlier record branch whose fields are a strict subset of the value's
+                        if !sf.is_empty() && sf.iter().all(|f| fields.iter().any(|(n, _)| n == &f.name)) {
                             out.push("bare-record-shadowed");
-                        }
-                        if fields.iter().all(|(n, _)| sf.iter().any(|f| &f.name == n)) {
-                            patterns(v, b, env, out);
-                            break;
                         }
                     }
                 }
@@ -426,6 +431,22 @@ pub fn patterns(v: &Value, s: &S, env: &Env, out: &mut Vec<&'static str>) {
     }
 }
 
+/// Structural conformance of a candidate to a schema, exact kinds only (no widening, no bare values);
+/// used only to decide which record branch of a union a bare record belongs to.
+fn fits(v: &Value, s: &S, env: &Env) -> bool {
+    match (v, s.deref(env)) {
+        (Value::Null, S::Null) | (Value::Boolean(_), S::Boolean) | (Value::Int(_), S::Int) | (Value::Long(_), S::Long) | (Value::Float(_), S::Float) | (Value::Double(_), S::Double) | (Value::Bytes(_), S::Bytes) | (Value::String(_), S::String) => true,
+        (Value::Fixed(n, _), S::Fixed { size, .. }) => n == size,
+        (Value::Enum(i, _), S::Enum { symbols, .. }) => (*i as usize) < symbols.len(),
+        (Value::Array(items), S::Array(it)) => items.iter().all(|x| fits(x, it, env)),
+        (Value::Map(m), S::Map(vt)) => m.values().all(|x| fits(x, vt, env)),
+        (Value::Union(i, inner), S::Union(br)) => br.get(*i as usize).is_some_and(|b| fits(inner, b, env)),
+        (Value::Record(fields), S::Record { fields: sf, .. }) => fields.len() == sf.len() && fields.iter().zip(sf).all(|((n, x), f)| n == &f.name && fits(x, &f.ty, env)),
+        (x, S::Logical(..)) => !matches!(x, Value::Null | Value::Boolean(_) | Value::Array(_) | Value::Map(_) | Value::Record(_) | Value::Union(..) | Value::Enum(..)),
+        _ => false,
+    }
+}
+
 /// Recorded deviations: (root-cause pattern present in the input, outcome class) -> finding id.
 fn deviation_id(pats: &[&'static str], class: &str) -> Option<&'static str> {
     let bad_write = matches!(class, "accepted-unreadable" | "accepted-different-value");
@@ -434,7 +455,7 @@ fn deviation_id(pats: &[&'static str], class: &str) -> Option<&'static str> {
         ("float-for-double", _) if bad_write => Some("D-C07-float-for-double-written-as-4-bytes"),
         ("bare", _) if bad_write => Some("D-C07-bare-value-in-union-written-without-index"),
         ("bare", "accepted-write-error") => Some("D-C07-bare-value-in-union-encoder-error"),
-        ("bare-record-shadowed", "accepted-different-value") => Some("D-C07-bare-record-in-union-written-as-earlier-branch"),
+        ("bare-record-shadowed", _) if bad_write => Some("D-C07-bare-record-in-union-written-as-earlier-branch"),
         ("enum-out-of-range-default", _) if bad_write => Some("D-C07-enum-index-out-of-range-accepted-with-default"),
         ("fixed-for-decimal-bytes", _) if bad_write => Some("D-C07-fixed-for-decimal-bytes-written-without-length"),
         ("bytes-for-decimal", "accepted-write-error") => Some("D-C07-bytes-for-decimal-encoder-error"),
